@@ -152,7 +152,10 @@ pub fn run(sc: &Scenario, stats: &mut Stats) {
                     crate::util::block_on(sm_states[h].set(val.clone()));
                     ok.clone()
                 });
-                ev(json!({"ev":"set","v":v,"tokio":t,"smol":s}));
+                // what the handle that was just given the value reports as the current one
+                let tget: u32 = tk_states[h].get().seq;
+                let sget: u32 = sm_states[h].get().seq;
+                ev(json!({"ev":"set","v":v,"tokio":t,"smol":s,"tget":tget,"sget":sget}));
             }
             Op::CloneState => {
                 if tk_states.is_empty() || tk_states.len() >= 3 {
